@@ -13,13 +13,14 @@ def run(idx, rep, tier):
         "accumulate_wrenches and contact_forces. R-ATTR (engine E1): every attribute read on a receiver of known class "
         "resolves. R-INVALIDATE: RigidBody methods that reassign a source attribute reset every dependent cache. "
         "R-SAMEPREDICATE: tree-based and brute-force broad phase take (body1, body2) in the same order, bind the same "
-        "triple and both reach aabb_overlap. R-FRAME (engine E2, incl. the wrench rule taken from adjoint_from_transform's "
+        "triple and both reach aabb_overlap. R-SHAREDPOSE: express_in stores a copy of the other body's pose. R-FRAME (engine E2, incl. the wrench rule taken from adjoint_from_transform's "
         "docstring) over the hydroelastic package. The 5% discretisation statements are not decided.")
     rep.assumptions = DOMAIN_D
     it = e1(idx)
     hydro.r_reaction(idx, rep)
     hydro.r_invalidate(idx, rep)
     hydro.r_samepredicate(idx, rep)
+    hydro.r_sharedpose(idx, rep)
     HYM = {m.name for m in idx.lib_modules() if "hydroelastic" in m.name} | {"distance3d.utils"}
     frame.r_frame(idx, rep, e2(idx), modules=HYM, floor=20)
     mods = None if tier == "thorough" else {HY + "_interface", HY + "_forces", HY + "_contact_surface", HY + "_rigid_body", HY + "_broad_phase"}
